@@ -39,14 +39,57 @@ DEPS = {
 }
 
 
+# properties whose statement implies that the anchored code completes: a dynamic borrow conflict (a registry guard still alive
+# when the same state type is acquired again) is a run-time panic / a refused or silently dropped write on that path.  K4 (guard
+# typestate, crate-wide summaries) is evaluated once and filtered to the functions of the property's own anchored files.
+# (C13.R3, C20.R4 and C16.R6 are the older per-property / crate-wide instances of the same analysis.)
+GUARD_PROPS = ("C03", "C04", "C05", "C06", "C07", "C08", "C10", "C11", "C12", "C14", "C15", "C17", "C18", "C19")
+
+
+def guard_files(prop):
+    import json
+    import os
+    path = os.path.join(os.path.dirname(os.path.dirname(os.path.abspath(__file__))), "properties.jsonl")
+    for line in open(path):
+        p = json.loads(line)
+        if p.get("id") == prop:
+            return tuple(x for x in p.get("anchors", {}).get("files", []) if x.startswith("src/") and not x.startswith("src/heuristics/"))
+    return ()
+
+
+def guards(ctx):
+    import k4
+    files = guard_files(ctx.prop)
+    rule = ctx.prop + ".K4"
+    out, stats, S = k4.guard_conflicts(ctx.facts)
+    mine = [(fn, g, c) for (fn, g, c) in out if any(fn.file == x or (x.endswith("/") and fn.file.startswith(x)) for x in files)]
+    bodies = len([f for f in ctx.facts.all_fns if any(f.file == x or (x.endswith("/") and f.file.startswith(x)) for x in files) and not f.from_expansion])
+    ctx.count("k4_bodies_in_anchored_files", bodies)
+    seen = set()
+    for fn, g, c in mine:
+        key = (fn.key, g[0], c[1])
+        if key in seen:
+            continue
+        seen.add(key)
+        ctx.violation(rule, fn.key, "%s while %s" % (c[1].split("::")[-1], g[3]),
+                      "%s guard on %s (acquired via %s at line %s) is still live when %s acquires it %s at line %s: %s"
+                      % (g[1], g[0], g[3], g[2][0] if g[2] else "?", c[1], c[3], c[0][0] if c[0] else "?", c[4]), loc=fn.loc(c[0]))
+    if not mine:
+        ctx.ok(rule, "anchored files", "no-guard-conflict", "%d bodies in %s" % (bodies, list(files)))
+
+
 def run(ctx):
     for i, (module, fname, old, why) in enumerate(DEPS.get(ctx.prop, []), 1):
         ctx.borrow("%s.D%d" % (ctx.prop, i), why, module, fname, old)
+    if ctx.prop in GUARD_PROPS:
+        ctx.guard(ctx.prop + ".K4", "no dynamic borrow conflict in the anchored code", lambda: guards(ctx))
 
 
 def explain(prop):
     ds = DEPS.get(prop, [])
+    k4txt = (" (K4) no registry guard is still alive when the same state type is acquired again (directly or through a callee's summary) anywhere in this property's anchored files: such a path panics, or a write through a `try_` accessor / set_value is refused."
+             if prop in GUARD_PROPS else "")
     if not ds:
-        return ""
-    return (" Mechanisms of other properties this statement rests on are decided by running the owning property's rule body under this "
+        return k4txt
+    return k4txt + (" Mechanisms of other properties this statement rests on are decided by running the owning property's rule body under this "
             "property's ids: " + "; ".join("%s.D%d = %s (%s)" % (prop, i, old, why) for i, (_m, _f, old, why) in enumerate(ds, 1)) + ".")
